@@ -22,6 +22,13 @@ def footprint(g):
     def add(o, what):
         if o is not None and isinstance(o, (list, dict)) or what in ('node', 'attacker'):
             ids[id(o)] = what
+            if what in ('tags', 'extras', 'ttc'):           # nested mutable values must not be shared either
+                stack = list(o.values()) if isinstance(o, dict) else list(o)
+                while stack:
+                    x = stack.pop()
+                    if isinstance(x, (list, dict)):
+                        ids[id(x)] = 'a value nested in ' + what
+                        stack += list(x.values()) if isinstance(x, dict) else list(x)
     for n in g.nodes:
         add(n, 'node'); add(n.children, 'children list'); add(n.parents, 'parents list'); add(n.tags, 'tags'); add(n.extras, 'extras')
         add(n.ttc, 'ttc'); add(n.compromised_by, 'compromised_by list')
@@ -55,6 +62,8 @@ def run_one(ops, mo_steps, res):
         if op['k'] == 'deepcopy':
             a, b = canon_obs(st['obs']), canon_obs(st['other'])
             if a != b: probs.append('the copy differs from the original in ' + ', '.join(k for k in a if a[k] != b[k]))
+            elif im.g._to_dict() != im.other._to_dict(): probs.append('the serialized content of the copy differs from the original (order inside a node or attacker entry)')
+            elif (im.g.next_node_id, im.g.next_attacker_id) != (im.other.next_node_id, im.other.next_attacker_id): probs.append('counters of the copy differ')
             shared = set(footprint(im.g)) & set(footprint(im.other))
             if shared: probs.append('copy and original share ' + ', '.join(sorted({footprint(im.g)[x] for x in shared})))
             if im.g.model is not im.other.model or im.g.lang_graph is not im.other.lang_graph: probs.append('model / language not shared')
